@@ -123,7 +123,7 @@ func parseCPUList(s string) ([]int, error) {
 			continue
 		}
 		lo, hi, isRange := strings.Cut(part, "-")
-		a, err := strconv.Atoi(lo)
+		a, err := parseCPUNum(lo)
 		if err != nil {
 			return nil, fmt.Errorf("bad cpulist entry %q: %w", part, err)
 		}
@@ -131,7 +131,7 @@ func parseCPUList(s string) ([]int, error) {
 			out = append(out, a)
 			continue
 		}
-		b, err := strconv.Atoi(hi)
+		b, err := parseCPUNum(hi)
 		if err != nil {
 			return nil, fmt.Errorf("bad cpulist entry %q: %w", part, err)
 		}
@@ -143,6 +143,16 @@ func parseCPUList(s string) ([]int, error) {
 		}
 	}
 	return out, nil
+}
+
+// parseCPUNum reads one cpulist number, the kernel writes plain decimal digits so a sign is a format error
+func parseCPUNum(s string) (int, error) {
+	for i := 0; i < len(s); i++ {
+		if s[i] < '0' || s[i] > '9' {
+			return 0, fmt.Errorf("bad cpu number %q", s)
+		}
+	}
+	return strconv.Atoi(s)
 }
 
 func readIntFile(path string) (int, error) {
